@@ -115,6 +115,9 @@ def build_one(cd, idx, seed):
     for i, g in enumerate(c.dgrams):
         f = fl2 if i >= 4 else fl           # the client migrates before its last datagram (the server answers to the new address)
         frames.append(udp_frame(f, g.d, g.payload))
+    if seed % 3 == 1 and not cd.get("late"):      # retransmitted first flight: the first client and server datagrams are captured again later
+        frames.insert(3, frames[1])
+        frames.insert(3, frames[0])
     return dict(proto="quic", flow=fl, flow2=fl2, frames=frames, keylog=c.keylog, truth=[(g.d, g.stream) for g in c.dgrams if g.stream], nmig=4)
 
 
@@ -183,6 +186,11 @@ def _one(job):
             mf.insert(rz.randrange(len(mf) + 1), (-1, fr))
     rngk = random.Random(seed + 5)
     keylog = [l for c in conns for l in c["keylog"]]
+    # "... key-log lines of all connections shuffled together": the log also holds lines of many sessions that are not in the capture
+    for _ in range(rngk.choice([0, 0, 50, 120, 400])):
+        keylog.append(rngk.choice(["CLIENT_RANDOM %064x %096x" % (rngk.getrandbits(256), rngk.getrandbits(384)),
+                                   "SERVER_TRAFFIC_SECRET_0 %064x %064x" % (rngk.getrandbits(256), rngk.getrandbits(256)),
+                                   "CLIENT_HANDSHAKE_TRAFFIC_SECRET %064x %096x" % (rngk.getrandbits(256), rngk.getrandbits(384))]))
     rngk.shuffle(keylog)
     ts0 = 1_700_000_000_000_000
     opts = [[], [], [], ["-m", "443:9443"], ["-m"]][seed % 5]       # a port mapping is applied per connection, whatever the others were
